@@ -17,6 +17,9 @@ package main
 //        CommitmentOp.Run → ics23.Verify(Non)Membership with bptree.BptreeSpec)
 //
 // ops:  bpnew | bpset <k> <v> | bpdel <k> | bpcommit | bpprove <k> [<proof bits to sample per operator>]
+//       bpidx   (GetByIndex / GetWithIndex of the committed tree = rank in the sorted committed keys;
+//                the non-membership proof generator finds the gap neighbours through them)      bp-index
+//       bpsweep (every present key's proof and, for every key k, the absence proof of k‖00 verify) bp-incomplete
 //
 // oracle (a plain map of the committed state; sorted keys for neighbours):
 //   present key:  the proof verifies with (key, committed value)        bp-incomplete
@@ -40,6 +43,8 @@ import (
 
 	abci "github.com/gnolang/gno/tm2/pkg/bft/abci/types"
 	"github.com/gnolang/gno/tm2/pkg/crypto/merkle"
+	"github.com/gnolang/gno/tm2/pkg/bptree"
+	dbm "github.com/gnolang/gno/tm2/pkg/db"
 	"github.com/gnolang/gno/tm2/pkg/db/memdb"
 	ics23 "github.com/cosmos/ics23/go"
 	storebptree "github.com/gnolang/gno/tm2/pkg/store/bptree"
@@ -56,6 +61,7 @@ type bpState struct {
 	}
 	key       types.StoreKey
 	aux       types.StoreKey
+	mtree     *bptree.MutableTree
 	working   map[string][]byte // uncommitted view
 	committed map[string][]byte
 	cid       types.CommitID
@@ -72,12 +78,19 @@ func bpNew() {
 	ms.SetStoreOptions(types.StoreOptions{PruningOptions: types.PruneNothing})
 	k := types.NewStoreKey(bpStoreName)
 	aux := types.NewStoreKey("aux")
-	ms.MountStoreWithDB(k, storebptree.StoreConstructor, nil)
+	// the same construction as storebptree.StoreConstructor, keeping a handle on the tree so that
+	// `bpidx` can probe GetByIndex / GetWithIndex (which the non-membership proof generator relies on)
+	var mtree *bptree.MutableTree
+	cons := func(db dbm.DB, opts types.StoreOptions) types.CommitStore {
+		mtree = bptree.NewMutableTreeWithDB(db, 10000, bptree.NewNopLogger())
+		return storebptree.UnsafeNewStore(mtree, opts)
+	}
+	ms.MountStoreWithDB(k, cons, nil)
 	ms.MountStoreWithDB(aux, storebptree.StoreConstructor, nil)
 	if err := ms.LoadLatestVersion(); err != nil {
 		panic(err)
 	}
-	bp = &bpState{ms: ms, key: k, aux: aux, working: map[string][]byte{}, committed: map[string][]byte{}}
+	bp = &bpState{ms: ms, key: k, aux: aux, mtree: mtree, working: map[string][]byte{}, committed: map[string][]byte{}}
 }
 
 func bpKeyPath(key []byte) string {
@@ -274,7 +287,7 @@ func bpProve(key []byte, nbits int) string {
 			if emptyNear {
 				return fmt.Sprintf("VIOL:bp-empty-value non-membership proof for absent key %s next to an EMPTY-valued neighbour does not verify", kit.Hex(key))
 			}
-			return fmt.Sprintf("VIOL:bp-incomplete non-membership proof for absent key %s does not verify", kit.Hex(key))
+			return fmt.Sprintf("VIOL:bp-incomplete non-membership proof for absent key %s does not verify (%s)", kit.Hex(key), describeNeighbours(proof, keys, pos))
 		}
 		// present keys (neighbours first) must never be proved absent
 		var pk [][]byte
@@ -402,6 +415,123 @@ func bpProve(key []byte, nbits int) string {
 	return "ok"
 }
 
+// describeNeighbours: which neighbours the absence proof embeds vs. the true adjacent keys
+func describeNeighbours(proof *merkle.Proof, keys []string, pos int) string {
+	var cp ics23.CommitmentProof
+	if cp.Unmarshal(proof.Ops[0].Data) != nil || cp.GetNonexist() == nil {
+		return "proof is not a non-existence proof"
+	}
+	ne := cp.GetNonexist()
+	show := func(e *ics23.ExistenceProof) string {
+		if e == nil {
+			return "none"
+		}
+		return kit.Hex(e.Key)
+	}
+	wl, wr := "none", "none"
+	if pos > 0 {
+		wl = kit.Hex([]byte(keys[pos-1]))
+	}
+	if pos < len(keys) {
+		wr = kit.Hex([]byte(keys[pos]))
+	}
+	return fmt.Sprintf("embedded neighbours left=%s right=%s; true neighbours left=%s right=%s", show(ne.Left), show(ne.Right), wl, wr)
+}
+
+// bpIndex: GetByIndex / GetWithIndex of the committed tree against the sorted committed keys.
+func bpIndex() string {
+	if bp == nil || bp.ncommit == 0 || bp.mtree == nil {
+		return "-"
+	}
+	imm, err := bp.mtree.GetImmutable(bp.cid.Version)
+	if err != nil {
+		return fmt.Sprintf("VIOL:bp-index cannot open committed version %d: %v", bp.cid.Version, err)
+	}
+	defer imm.Close()
+	keys := sortedKeys(bp.committed)
+	if imm.Size() != int64(len(keys)) {
+		return fmt.Sprintf("VIOL:bp-index Size()=%d but %d keys are committed", imm.Size(), len(keys))
+	}
+	for i, k := range keys {
+		gk, gv, err := imm.GetByIndex(int64(i))
+		if err != nil || string(gk) != k || !bytes.Equal(gv, bp.committed[k]) {
+			return fmt.Sprintf("VIOL:bp-index GetByIndex(%d) = (%s, err=%v), the %d-th committed key is %s", i, kit.Hex(gk), err, i, kit.Hex([]byte(k)))
+		}
+		idx, v, err := imm.GetWithIndex([]byte(k))
+		if err != nil || idx != int64(i) || !bytes.Equal(v, bp.committed[k]) {
+			return fmt.Sprintf("VIOL:bp-index GetWithIndex(%s) = (%d, err=%v), its rank is %d", kit.Hex([]byte(k)), idx, err, i)
+		}
+		// an absent key right after k has rank i+1
+		ak := append([]byte(k), 0)
+		if _, has := bp.committed[string(ak)]; !has {
+			idx, v, err := imm.GetWithIndex(ak)
+			if err != nil || idx != int64(i+1) || v != nil {
+				return fmt.Sprintf("VIOL:bp-index GetWithIndex(absent %s) = (%d, value %s, err=%v), its insertion rank is %d", kit.Hex(ak), idx, kit.Hex(v), err, i+1)
+			}
+		}
+	}
+	return "ok"
+}
+
+// bpSweep: completeness over the WHOLE committed tree, one verification per proof (no mutations):
+// every present key's membership proof verifies; for every present key k the absent key k‖0x00,
+// plus one key before the first and one after the last, has a non-membership proof that verifies
+// and embeds the true adjacent keys.
+func bpSweep() string {
+	if bp == nil || bp.ncommit == 0 {
+		return "-"
+	}
+	keys := sortedKeys(bp.committed)
+	if len(keys) == 0 {
+		return "-"
+	}
+	root := bp.cid.Hash
+	query := func(key []byte) abci.ResponseQuery {
+		return bp.ms.Query(abci.RequestQuery{Path: "/" + bpStoreName + "/key", Data: key, Height: bp.cid.Version, Prove: true})
+	}
+	absent := func(key []byte) string {
+		if _, has := bp.committed[string(key)]; has || len(key) == 0 {
+			return ""
+		}
+		pos := sort.SearchStrings(keys, string(key))
+		if (pos > 0 && len(bp.committed[keys[pos-1]]) == 0) || (pos < len(keys) && len(bp.committed[keys[pos]]) == 0) {
+			return "" // documented: unprovable next to an empty value (bp-empty-value)
+		}
+		res := query(key)
+		if res.Error != nil || res.Proof == nil || len(res.Proof.Ops) != 2 {
+			return fmt.Sprintf("VIOL:bp-incomplete no non-membership proof produced for absent key %s: err=%v log=%q", kit.Hex(key), res.Error, res.Log)
+		}
+		if !bpVerify(res.Proof, root, key, nil, true) {
+			return fmt.Sprintf("VIOL:bp-incomplete non-membership proof for absent key %s does not verify (%s)", kit.Hex(key), describeNeighbours(res.Proof, keys, pos))
+		}
+		return ""
+	}
+	for _, k := range keys {
+		want := bp.committed[k]
+		if len(want) > 0 {
+			res := query([]byte(k))
+			if res.Error != nil || res.Proof == nil || len(res.Proof.Ops) != 2 || !bytes.Equal(res.Value, want) || !bpVerify(res.Proof, root, []byte(k), want, false) {
+				return fmt.Sprintf("VIOL:bp-incomplete membership proof for present key %s does not verify (err=%v log=%q)", kit.Hex([]byte(k)), res.Error, res.Log)
+			}
+		}
+		if v := absent(append([]byte(k), 0)); v != "" {
+			return v
+		}
+	}
+	first := []byte(keys[0])
+	before := first[:len(first)-1]
+	if len(before) == 0 && first[0] > 0 {
+		before = []byte{first[0] - 1}
+	}
+	if v := absent(before); v != "" {
+		return v
+	}
+	if v := absent(append([]byte(keys[len(keys)-1]), 0xff)); v != "" {
+		return v
+	}
+	return "ok"
+}
+
 func describeDiff(a, b merkle.ProofOp) string {
 	prt := rootmulti.DefaultProofRuntime()
 	x, _ := prt.Decode(a)
@@ -425,7 +555,13 @@ func describeDiff(a, b merkle.ProofOp) string {
 	return strings.ReplaceAll(fmt.Sprintf("decoded differs at %d: …%s… vs …%s…", i, s1[lo:hi1], s2[lo:hi2]), "\n", " ")
 }
 
-func execBP(t []string) (string, string) {
+func execBP(t []string) (impl string, oracle string) {
+	// a panic on the proof / index path (e.g. "index out of range in treeGetByIndex") is a verdict, not a crash
+	defer func() {
+		if v := recover(); v != nil {
+			impl, oracle = "bp", fmt.Sprintf("VIOL:bp-panic %s panicked: %v", strings.Join(t, " "), v)
+		}
+	}()
 	switch t[0] {
 	case "bpnew":
 		bpNew()
@@ -469,6 +605,10 @@ func execBP(t []string) (string, string) {
 			bp.committed[k] = v
 		}
 		return "bp", "-"
+	case "bpidx":
+		return "bp", bpIndex()
+	case "bpsweep":
+		return "bp", bpSweep()
 	case "bpprove":
 		if len(t) != 2 && len(t) != 3 {
 			return "bp", "-"
